@@ -26,6 +26,10 @@ CONSTANTS
  DevToolReaps = FALSE
  DevEscapeFastPath = FALSE
  DevEtcdDeletePrefix = TRUE
+ DevStaleNextOffset = FALSE
+ DevGrowSameCountOk = FALSE
+ DevToolPersistsDefault = FALSE
+ DevToolGroupDefaults = FALSE
 INIT Init
 NEXT NextTopicOps
 INVARIANTS C17_SameObs
